@@ -251,6 +251,59 @@ theorem kwargs_exact (txAttrs assigned extras : List String) (contained : Bool)
     simp only [kwargs, List.filter_append, hkeep, hdrop Y h2]
     simp [hpos, hend]
 
+/-! ### stores and deletions of user code on an object under construction -/
+
+theorem kwargs_set (txAttrs d : List String) (k : String) (T : List String) (h : kwargs txAttrs d = T)
+    (hk : (txAttrs.contains k || k == "parent") = true → k ∈ T) : kwargs txAttrs (set k d) = T := by
+  by_cases hm : k ∈ d
+  · rw [set_of_mem hm]; exact h
+  · rw [set_of_not_mem hm]
+    have hP : (txAttrs.contains k || k == "parent") = false := by
+      cases hc : (txAttrs.contains k || k == "parent") with
+      | false => rfl
+      | true =>
+        have : k ∈ kwargs txAttrs d := by rw [h]; exact hk hc
+        exact absurd (List.mem_filter.1 this).1 hm
+    simp only [kwargs, List.filter_append, List.filter_cons, List.filter_nil, hP] at h ⊢
+    simpa using h
+
+theorem kwargs_del (txAttrs d : List String) (k : String) (T : List String) (h : kwargs txAttrs d = T)
+    (hk : k ∉ T) : kwargs txAttrs (del k d) = T := by
+  have e : kwargs txAttrs (del k d) = (kwargs txAttrs d).filter fun x => x != k := by
+    simp only [kwargs, del, List.filter_filter]
+    congr 1
+    funext x
+    exact Bool.and_comm _ _
+  rw [e, h]
+  exact List.filter_eq_self.2 (fun x hx => by
+    have : x ≠ k := fun e => hk (e ▸ hx)
+    simpa using this)
+
+/-- whatever harmless stores / deletions user code performs on the object, the constructor arguments stay the same -/
+theorem kwargs_ops (txAttrs : List String) (contained : Bool) (ops : List Op) (d : List String)
+    (h : kwargs txAttrs d = txAttrs ++ (if contained then ["parent"] else []))
+    (ho : ∀ o, o ∈ ops → o.harmless txAttrs contained) :
+    kwargs txAttrs (ops.foldl (fun d o => o.apply d) d) = txAttrs ++ (if contained then ["parent"] else []) := by
+  induction ops generalizing d with
+  | nil => exact h
+  | cons o ops ih =>
+    simp only [List.foldl_cons]
+    refine ih _ ?_ (fun o' ho' => ho o' (by simp [ho']))
+    have hh := ho o (by simp)
+    cases o with
+    | set k =>
+      refine kwargs_set txAttrs d k _ h (fun hc => ?_)
+      simp only [Bool.or_eq_true, List.contains_iff_mem, beq_iff_eq] at hc
+      rcases hc with hc | hc
+      · simp [hc]
+      · have : contained = true := hh hc
+        simp [this, hc]
+    | del k =>
+      refine kwargs_del txAttrs d k _ h ?_
+      have h1 : k ∉ txAttrs := hh.1
+      have h2 : k ≠ "parent" := hh.2
+      cases contained <;> simp [h1, h2]
+
 end Kw
 
 end LoadTree
